@@ -45,6 +45,7 @@ def gen_cases(c):
     cs = []
     # the witness of the TinyMatrixInvert defect (user eps above the default)
     cs.append(Case("invw", "I", 3, [1, 0, 0, 0, 1e-20, 1, 0, 1e-20, 2], [0, 0, 0], 1e-10, "near-null pivot below the user eps"))
+    cs.append(Case("invw2", "I", 3, [1, 0, 0, 0, 0.25, 1, 0, 0.25, 2], [0, 0, 0], 0.5, "well-conditioned matrix, pivot 0.25 below the user eps 0.5"))
     cs.append(Case("invw0", "I", 3, [1, 0, 0, 0, 1e-20, 1, 0, 1e-20, 2], [0, 0, 0], DEFAULT_EPS, "same matrix, default eps"))
     per = c.pick(6, 40)
     t = 0
@@ -223,7 +224,10 @@ def main(c):
         # correspondence with the model: verdict, and solution within tolerance
         if ok != mok:
             if cs.kind == "I" and cs.eps > DEFAULT_EPS and not mok and ok:
-                continue  # the defect above: decomp's failure is ignored by TinyMatrixInvert
+                # decomp reported a pivot below the user eps but TinyMatrixInvert went on with the half-finished factorisation
+                c.report(KEY_INV, "TinyMatrixInvert<%d>::exe(A, eps=%g) returned normally although the factorisation met a pivot below eps (exact model: failure): A=%s -> %s" % (
+                    cs.n, cs.eps, cs.json()["A_row_major"], x), cs.json(), True)
+                continue
             nmis += 1
             c.report("verdict:%s:%s:%d:%s" % (cs.kind, cs.family, cs.n, cs.id), "verdict differs: real code %s, exact model %s on A=%s b=%s (%s, N=%d, %s)" % (
                 "success" if ok else "failure", "success" if mok else "failure (exactly null pivot)", cs.json()["A_row_major"], cs.json()["b"], cs.json()["solver"], cs.n, cs.family),
